@@ -201,3 +201,29 @@ Proof.
   - apply (linear_extrude_closed_exact c h ph E C2 C1).
   - intros Hh. rewrite (linear_extrude_volume c h ph E C1). pose proof (circle_clockwise r segments c Hs Hr Ec). nra.
 Qed.
+
+(* the hexagonal heads and nuts of the thread module (and every circumscribed or inscribed prism): the outline is a circle
+   of another radius, so the prism is a cylinder; closed and outward with no hypothesis on the caps *)
+Theorem polygon_prism_unconditional (n : Z) (r h : R) pts ph : r <> 0 ->
+  (inscribed_polygon n r = Some pts \/ circumscribed_polygon n r = Some pts) -> linear_extrude pts h = Some ph ->
+  closed_exact (snd ph) /\ (0 < h -> vol6 (fst ph) (snd ph) < 0).
+Proof.
+  intros Hr Hp E.
+  assert (Hn : (4 <= n)%Z).
+  { assert (Hc : exists R', circle R' n = Some pts) by (destruct Hp as [Hp|Hp]; [exists r; exact Hp|exists (r / dcos (180 / IZR n)); exact Hp]).
+    destruct Hc as [R' Hc]. unfold linear_extrude, triangulate2d in E. destruct (triangulate2d_rev pts); [|discriminate]. destruct (Nat.ltb_spec 3 (length pts)) as [Hl|]; [|discriminate].
+    unfold circle, arc in Hc. cbn [nleb neqb nofZ nzero NumR] in Hc.
+    destruct (Rleb 360 360) eqn:E1; [|apply Rleb_false in E1; lra]. destruct (Reqb 360 360) eqn:E2; [|apply Reqb_false in E2; lra]. inversion Hc as [Hq]. rewrite <- Hq in Hl.
+    rewrite map_length in Hl. unfold zseq in Hl. rewrite map_length, seq_length in Hl. lia. }
+  destruct Hp as [Hp|Hp].
+  - apply (cylinder_unconditional r h n ph); [|exact Hr]. unfold cylinder. unfold inscribed_polygon in Hp. rewrite Hp. exact E.
+  - assert (Hn3 : 4 <= IZR n) by (apply IZR_le; exact Hn).
+    assert (Hcos : 0 < dcos (180 / IZR n)).
+    { rewrite Trig_proofs.dcos_def. pose proof PI_RGT_0. apply cos_gt_0.
+      - apply Rlt_trans with 0; [lra|]. apply Rdiv_lt_0_compat; [|lra]. apply Rmult_lt_0_compat; [apply Rdiv_lt_0_compat; lra|lra].
+      - apply (Rmult_lt_reg_r (180 / PI)); [apply Rdiv_lt_0_compat; lra|]. field_simplify; [|lra|split; lra].
+        apply (Rmult_lt_reg_r (IZR n)); [lra|]. field_simplify; lra. }
+    apply (cylinder_unconditional (r / dcos (180 / IZR n)) h n ph).
+    + unfold cylinder. unfold circumscribed_polygon, inscribed_polygon in Hp. cbn [ndiv nofZ NumR] in Hp. rewrite Hp. exact E.
+    + intros E0. apply Rmult_integral_contrapositive_currified in E0; [exact E0|exact Hr|]. apply Rinv_neq_0_compat. lra.
+Qed.
